@@ -10,7 +10,7 @@ ENTRIES_THOROUGH = [("", 7, ""), ("h/a/", 4, ""), ("h/a/x/v1/", 3, ""), ("h/s/q1
 
 def x_obligations(tier):
     o = []
-    T = 170 if tier == "quick" else 1200
+    T = 170 if tier == "quick" else 600
     searches = SEARCHES_QUICK if tier == "quick" else SEARCHES_THOROUGH
     entries = ENTRIES_QUICK if tier == "quick" else ENTRIES_THOROUGH
     for si, s in enumerate(searches):
